@@ -45,6 +45,9 @@ FAMILIES = {
     # the same with a long last line (many text segments) between the multi-line node's newline and the '|'
     "nested table in a template in a cell, long last line": lambda n: "{|\n| {{a|\n" * n + ("\n" + "see-also-" * 25 + "}} | y\n|}") * n,
     "nested table in a multi-line cell, long last line": lambda n: "{|\n| <span>\n" * n + ("\n|}" + "-a:b;c" * 40 + "</span> | x") * n,
+    "nested table style with an unclosed quote holding a multi-line wikilink": lambda n: '{| a="[[t|\n' * n + "x" + "]]\n|}\n" * n,
+    "nested table style with an unclosed quote holding a multi-line template": lambda n: "{| a='{{t|\n" * n + "x" + "}}\n|}\n" * n,
+    "nested row style with an unclosed quote": lambda n: '{|\n|- a="[[t|\n' * n + "x" + "]]\n|}\n" * n,
     "cell with a multi-line comment and a long line": lambda n: "{|\n" + ("| <!--\n-->" + "x-y:z " * 30 + "| c\n") * n + "|}",
     "nested tables": lambda n: "{|\n|\n" * n + "|}\n" * n, "nested [x {{": lambda n: "[http://a {{b|" * n + "}}]" * n,
     "nested '' '''": lambda n: "''a'''b" * n + "'''''" * n,
